@@ -79,57 +79,68 @@ theorem C24_light_min_max_over (H : OpsOK) (Q : QueriesOK) (anno : Nat → SI) (
 
 /-! ## with the proved interval operations discharged
 
-`add, sub, neg, not, and, or, xor, concat, zero_extend, sign_extend, extract, udiv, shl, lshr, ashr`, the join of `If`, and the
-eight orderings are proved (C21, C22), so for these no hypothesis is needed.  `OpsRest` (mul, urem, the meet behind `==`/`!=`) is
-consulted only if the AST uses one of them.  ASTs here have a value at every node (`DefBV`); the annotations are in the form
-the constructor returns (`Nrm`, which is the only form Python holds), and the induction shows every intermediate abstract
-value has it too — that is what the signed orderings need. -/
+`add, sub, neg, not, and, or, xor, concat, zero_extend, sign_extend, extract, udiv, shl, lshr, ashr`, the join of `If`, the eight
+orderings and `==` / `!=` are proved (C21, C22), so for these no hypothesis on interval operations is needed.  `OpsRest` (mul,
+urem) is consulted only if the AST uses one of them.  `==` / `!=` decide through the meet, which is sound on ALIGNED operands
+only (open findings `C2x/eq|ne|intersection/unsound/unaligned-operand`): the guard `alBV` / `alB` says that the abstract
+operands at every `==` / `!=` node are aligned; it is void for ASTs without these nodes (`alBV_of_noEq`).  ASTs here have a
+value at every node (`DefBV`); the annotations are in the form the constructor returns (`Nrm`, which is the only form Python
+holds), and the induction shows every intermediate abstract value has it too — that is what the signed orderings and the
+meet need. -/
 
 /-- bit-vector ASTs: only the obligations of the operations that are not proved remain, and only if the AST uses them -/
 theorem C24_convert_sound_rest (anno : Nat → SI) (env : Nat → Nat)
     (hctx : ∀ i, (anno i).WF ∧ (anno i).mem (env i)) (hnrm : ∀ i, Nrm (anno i))
     (e : BV) (R : usesRestBV e = true → OpsRest) (hdef : DefBV env e)
-    (o o' : Orders) (av : AV) (hwt : WTBV anno env e) (h : convBV anno e o = .ok (av, o'))
+    (o o' : Orders) (hal : alBV anno e o) (av : AV) (hwt : WTBV anno env e) (h : convBV anno e o = .ok (av, o'))
     (v : Nat) (hv : evalBV env e = some v) : av.si.WF ∧ av.si.bits = wd e ∧ av.si.mem v :=
-  let g := (convBV_rest_good anno env hctx hnrm e o av o' R hdef hwt h).1
+  let g := (convBV_rest_good anno env hctx hnrm e o av o' R hal hdef hwt h).1
   ⟨g.1.1, g.1.2, (g.2 v hv).1⟩
 
-/-- **unconditional** for ASTs built from the proved operations: variables with annotations, constants, `+ - neg ~ & | ^`,
-`ZeroExt`, `SignExt`, `Extract`, `Concat`, `/u`, `<<`, `LShR`, `>>` (arithmetic), `If`, the unsigned and signed orderings and the Boolean
-connectives -/
+/-- **unconditional on the interval operations** for ASTs built from the proved operations: variables with annotations,
+constants, `+ - neg ~ & | ^`, `ZeroExt`, `SignExt`, `Extract`, `Concat`, `/u`, `<<`, `LShR`, `>>` (arithmetic), `If`, the
+unsigned and signed orderings, the Boolean connectives, and `==` / `!=` under the alignment guard -/
 theorem C24_fragment_sound (anno : Nat → SI) (env : Nat → Nat)
     (hctx : ∀ i, (anno i).WF ∧ (anno i).mem (env i)) (hnrm : ∀ i, Nrm (anno i))
     (e : BV) (hfrag : usesRestBV e = false) (hdef : DefBV env e)
+    (o o' : Orders) (hal : alBV anno e o) (av : AV) (hwt : WTBV anno env e) (h : convBV anno e o = .ok (av, o'))
+    (v : Nat) (hv : evalBV env e = some v) : av.si.WF ∧ av.si.bits = wd e ∧ av.si.mem v :=
+  C24_convert_sound_rest anno env hctx hnrm e (fun hh => by rw [hfrag] at hh; cases hh) hdef o o' hal av hwt h v hv
+
+/-- … without any guard when the AST has no `==` / `!=` node -/
+theorem C24_fragment_noeq_sound (anno : Nat → SI) (env : Nat → Nat)
+    (hctx : ∀ i, (anno i).WF ∧ (anno i).mem (env i)) (hnrm : ∀ i, Nrm (anno i))
+    (e : BV) (hfrag : usesRestBV e = false) (hnoeq : usesEqBV e = false) (hdef : DefBV env e)
     (o o' : Orders) (av : AV) (hwt : WTBV anno env e) (h : convBV anno e o = .ok (av, o'))
     (v : Nat) (hv : evalBV env e = some v) : av.si.WF ∧ av.si.bits = wd e ∧ av.si.mem v :=
-  C24_convert_sound_rest anno env hctx hnrm e (fun hh => by rw [hfrag] at hh; cases hh) hdef o o' av hwt h v hv
+  C24_fragment_sound anno env hctx hnrm e hfrag hdef o o' (alBV_of_noEq anno e o hnoeq) av hwt h v hv
 
 /-- the same for Boolean ASTs -/
 theorem C24_fragment_bool_sound (anno : Nat → SI) (env : Nat → Nat)
     (hctx : ∀ i, (anno i).WF ∧ (anno i).mem (env i)) (hnrm : ∀ i, Nrm (anno i))
     (c : BExp) (hfrag : usesRestB c = false) (hdef : DefB env c)
-    (o o' : Orders) (br : BoolRes) (hwt : WTB anno env c) (h : convB anno c o = .ok (br, o'))
+    (o o' : Orders) (hal : alB anno c o) (br : BoolRes) (hwt : WTB anno env c) (h : convB anno c o = .ok (br, o'))
     (b : Bool) (hb : evalB env c = some b) : br.has b = true :=
-  convB_rest_good anno env hctx hnrm c o br o' (fun hh => by rw [hfrag] at hh; cases hh) hdef hwt h b hb
+  convB_rest_good anno env hctx hnrm c o br o' (fun hh => by rw [hfrag] at hh; cases hh) hal hdef hwt h b hb
 
 theorem C24_bool_sound_rest (anno : Nat → SI) (env : Nat → Nat)
     (hctx : ∀ i, (anno i).WF ∧ (anno i).mem (env i)) (hnrm : ∀ i, Nrm (anno i))
     (c : BExp) (R : usesRestB c = true → OpsRest) (hdef : DefB env c)
-    (o o' : Orders) (br : BoolRes) (hwt : WTB anno env c) (h : convB anno c o = .ok (br, o'))
+    (o o' : Orders) (hal : alB anno c o) (br : BoolRes) (hwt : WTB anno env c) (h : convB anno c o = .ok (br, o'))
     (b : Bool) (hb : evalB env c = some b) : br.has b = true :=
-  convB_rest_good anno env hctx hnrm c o br o' R hdef hwt h b hb
+  convB_rest_good anno env hctx hnrm c o br o' R hal hdef hwt h b hb
 
 /-- the query obligations are proved (C22_min_max_bound) -/
 theorem queriesOK : QueriesOK := ⟨fun s m x hs hx h => min_le s m x hs hx h, fun s m x hs hx h => le_max s m x hs hx h⟩
 
-/-- `SolverVSA.min/max` on an AST of the proved fragment: no hypothesis left -/
+/-- `SolverVSA.min/max` on an AST of the proved fragment: no hypothesis on interval operations left -/
 theorem C24_fragment_min_max_over (anno : Nat → SI) (env : Nat → Nat)
     (hctx : ∀ i, (anno i).WF ∧ (anno i).mem (env i)) (hnrm : ∀ i, Nrm (anno i))
     (e : BV) (hfrag : usesRestBV e = false) (hdef : DefBV env e)
-    (o o' : Orders) (av : AV) (hwt : WTBV anno env e) (h : convBV anno e o = .ok (av, o'))
+    (o o' : Orders) (hal : alBV anno e o) (av : AV) (hwt : WTBV anno env e) (h : convBV anno e o = .ok (av, o'))
     (v : Nat) (hv : evalBV env e = some v) :
     (∀ m, av.si.min false = .ok (some m) → m ≤ v) ∧ (∀ m, av.si.max false = .ok (some m) → (v : Int) ≤ m) := by
-  obtain ⟨hw, _, hm⟩ := C24_fragment_sound anno env hctx hnrm e hfrag hdef o o' av hwt h v hv
+  obtain ⟨hw, _, hm⟩ := C24_fragment_sound anno env hctx hnrm e hfrag hdef o o' hal av hwt h v hv
   exact ⟨fun m hmin => min_le av.si m v hw hm hmin, fun m hmax => le_max av.si m v hw hm hmax⟩
 
 /-- non-vacuity and a bounded sanity fact: `If(x <u 4, x + 1, 0)` with `x ∈ 1[2,6]` at 3 bits -/
@@ -151,6 +162,24 @@ example : usesRestB (.cmp .slt (.var 0 3) (.bin .sub (.var 0 3) (.const 1 3))) =
 /-- the bitwise operations and `Concat` are inside the proved fragment -/
 example : usesRestBV (.concat (.bin .xor (.bin .and (.var 0 3) (.const 5 3)) (.bin .or (.var 0 3) (.const 2 3))) (.var 1 2)) =
     false := by decide
+
+/-- an `If` on an equality is inside the proved fragment; its guard holds for the aligned demo annotation -/
+def demoEq : BV := .ite (.cmp .eq (.bin .and (.var 0 3) (.const 6 3)) (.const 4 3)) (.var 0 3) (.const 0 3)
+
+example : usesRestBV demoEq = false ∧ alBV demoAnno demoEq [] := by
+  refine ⟨by decide, ?_⟩
+  simp only [demoEq, alBV, alB, true_and]
+  refine ⟨⟨fun _ _ => trivial, ?_⟩, fun _ _ _ _ => trivial⟩
+  intro p1 h1 _ p2 h2
+  have e1 : p1 = ({ si := { bits := 3, stride := 1, lb := 2, ub := 6 } }, []) := by
+    have : convBV demoAnno (.bin .and (.var 0 3) (.const 6 3)) [] = .ok ({ si := { bits := 3, stride := 1, lb := 2, ub := 6 } }, []) := by decide
+    rw [this] at h1; cases h1; rfl
+  subst e1
+  have e2 : p2 = ({ si := SI.new 3 0 4 4 }, []) := by
+    have : convBV demoAnno (.const 4 3) [] = .ok ({ si := SI.new 3 0 4 4 }, []) := by decide
+    rw [this] at h2; cases h2; rfl
+  subst e2
+  decide
 
 /-- the demo expression lies in the proved fragment and has a value at every node -/
 example : usesRestBV demoExpr = false ∧ DefBV (fun _ => 3) demoExpr := by
